@@ -15,6 +15,30 @@ fn grads(p: &Program, mask: &[bool], root: usize, seed: Option<Vec<f64>>) -> Res
     observe_impl(p, mask, &[Pass { root, seed }]).map(|o| o.grads)
 }
 
+/// One instance of the program kept alive (all results held), one pass per seed; after each pass the
+/// gradient of every value is collected with `replace_gradient()` (which empties the slot).
+fn grads_shared(p: &Program, mask: &[bool], root: usize, seeds: &[Option<Vec<f64>>]) -> Result<Vec<Grads>, String> {
+    run_catch(|| {
+        let vals = exec_impl(p, mask);
+        let mut out = Vec::new();
+        for s in seeds {
+            let seed = s.as_ref().map(|s| arr(vals[root].dimensions(), s));
+            vals[root].backward(seed);
+            out.push(vals.iter().map(|a| a.replace_gradient().map(|g| (g.dimensions().to_vec(), g.values().to_vec()))).collect::<Grads>());
+        }
+        out
+    })
+}
+
+fn same_grads(a: &Grads, b: &Grads) -> bool {
+    a.len() == b.len()
+        && a.iter().zip(b).all(|(x, y)| match (x, y) {
+            (None, None) => true,
+            (Some(x), Some(y)) => x.0 == y.0 && x.1.len() == y.1.len() && x.1.iter().zip(&y.1).all(|(p, q)| p.to_bits() == q.to_bits() || (*p == 0.0 && *q == 0.0)),
+            _ => false,
+        })
+}
+
 fn spaces(tier: Tier, var: u64) -> Vec<Space> {
     match tier {
         Tier::Quick => vec![
@@ -107,6 +131,42 @@ pub fn explore(opts: &Opts) -> Explored {
                         let mut hot = vec![0.0; n];
                         hot[(opts.seed as usize) % n] = 1.0;
                         let comp: Vec<f64> = hot.iter().map(|h| 1.0 - h).collect();
+                        // the same program instance reused (results kept alive, gradients collected and cleared
+                        // with replace_gradient between the passes) produces what fresh instances produce
+                        {
+                            let s12: Vec<f64> = gen1.iter().zip(gen2.iter()).map(|(a, b)| 2.0 * a - 3.0 * b).collect();
+                            let seeds: Vec<Option<Vec<f64>>> = vec![None, Some(gen1.clone()), Some(gen2.clone()), Some(s12)];
+                            l.transitions += 1 + seeds.len() as u64;
+                            l.validated += 1;
+                            match grads_shared(p, &mask, root, &seeds) {
+                                Err(e) => {
+                                    l.violation("reused-instance", case(), format!("panicked: {}", e));
+                                    continue;
+                                }
+                                Ok(shared) => {
+                                    let mut bad = false;
+                                    for (k, sd) in seeds.iter().enumerate() {
+                                        match grads(p, &mask, root, sd.clone()) {
+                                            Ok(fresh) => {
+                                                if !same_grads(&fresh, &shared[k]) {
+                                                    l.violation("reused-instance", case(), format!("pass {} on a reused instance (gradients cleared with replace_gradient after each pass) gives {:?}, a fresh instance gives {:?}", k, shared[k], fresh));
+                                                    bad = true;
+                                                    break;
+                                                }
+                                            }
+                                            Err(e) => {
+                                                l.violation("reused-instance", case(), format!("panicked: {}", e));
+                                                bad = true;
+                                                break;
+                                            }
+                                        }
+                                    }
+                                    if bad {
+                                        continue;
+                                    }
+                                }
+                            }
+                        }
                         for (pi, (s1, s2)) in [(gen1, gen2), (hot, comp)].iter().enumerate() {
                             let g1 = grads(p, &mask, root, Some(s1.clone()));
                             let g2 = grads(p, &mask, root, Some(s2.clone()));
